@@ -154,6 +154,7 @@ def merge(prop, tier, seed, jobs, meta, t_start, build_info):
     exhaustive_flags = []
     runs = []
     extra = {}
+    fine = {}
     for j in jobs:
         r = j.result
         runs.append({"job": j.name, "exit": j.rc, "wall_s": round(j.wall, 2), "timed_out": j.timed_out,
@@ -170,6 +171,8 @@ def merge(prop, tier, seed, jobs, meta, t_start, build_info):
         else:
             distinct_floor = max(distinct_floor, r.get("distinct_count", 0))
         trivial += r.get("trivial", 0)
+        if r.get("fine"):
+            fine.setdefault(r.get("fine_name", "fine"), set()).update(r["fine"])
         for s in r.get("samples", []):
             if len(samples) < 8:
                 samples.append(s)
@@ -193,7 +196,7 @@ def merge(prop, tier, seed, jobs, meta, t_start, build_info):
             exhaustive_flags.append(bool(r["exhaustive"]))
         for k in r:
             if k not in ("driver", "property", "evaluations", "distinct", "distinct_count", "trivial", "samples", "violations",
-                         "violation_count", "obs", "notes", "inconclusive", "exhaustive", "wall_s"):
+                         "violation_count", "obs", "notes", "inconclusive", "exhaustive", "wall_s", "fine", "fine_name"):
                 extra.setdefault(k, []).append(r[k])
         # a driver exit code other than 0/1/3 is a crash of the harness or an abort inside the library
         if j.rc not in (0, 1, 3) and not j.timed_out:
@@ -233,6 +236,8 @@ def merge(prop, tier, seed, jobs, meta, t_start, build_info):
         "engines": sorted(set(os.path.basename(j.argv[0]) for j in jobs)),
         "build": build_info,
     }
+    for name, st in fine.items():
+        coverage["distinct_" + name] = len(st)
     if notes:
         coverage["notes"] = notes
     if exhaustive_flags and all(exhaustive_flags) and meta.get("exhaustive_scope") and not inconclusive:
